@@ -51,6 +51,8 @@ def gen_case(rng, allow_entity_in_expr):
             if rng.random() < .15:
                 # the expression spans lines: '${' and its '}' are never on the same line
                 e = rng.choice(['\n v\n', 'n +\n 1', '\n(n,\n v)[1]\n', 's\n', '\n  uni\n  ', 'str(n) +\n t'])
+            elif rng.random() < .2 and '\n' not in e:
+                e = exprs.spread(rng, e).replace('\r\n', '\n')     # any generated expression, written over several lines
             if allow_entity_in_expr and rng.random() < .5:
                 e = rng.choice(["'&amp;'", "'x&lt;y'", "'&#65;'", "'&quot;' + v"])
             parts.append(('expr', e))
